@@ -17,10 +17,10 @@ PROP = "C11"
 LEVEL = "proof"
 GEN_UNITS = []
 SHARD = 8
-COQ_TARGETS = ["Props/C11.vo", "Model/C11Check.vo", "Model/Harness.vo"]
-THEOREM_FILES = ["Props/C11.v"]
+COQ_TARGETS = ["Props/C11.vo", "Props/C11w4.vo", "Model/C11Check.vo", "Model/C11Replay.vo", "Model/Harness.vo"]
+THEOREM_FILES = ["Props/C11.v", "Props/C11w4.v"]
 COQ_IMPORTS = ("From Coq Require Import List ZArith Bool QArith Qcanon.\n"
-               "From PV Require Import Base.Index Np.Array Model.Sparse Model.Repr Model.Harness Model.C11Check.\n")
+               "From PV Require Import Base.Index Np.Array Model.Sparse Model.Repr Model.Harness Model.C11Check Model.C11Replay Model.C11Lbfgs.\n")
 RULE = ("count tensors <= 4x3x2 (2- to 4-way; random fill, an emptied slice, emptied slices in several modes, all-zero fibres, all-zero data, "
         "singleton modes), dense and sparse, ranks 1-3, integer / fractional guesses optionally with an all-zero row, fractional weights, "
         "guess factors F-ordered, C-ordered or strided views, dense data from a C-ordered array; algorithms mu/pdnr/pqnr x option sets "
@@ -141,6 +141,7 @@ def gen_cases(rng, tier):
                          "sseed": rng.randrange(10 ** 6)}
                     if alg == "pqnr":      # completion and result are separate views (finding C11-F1)
                         cases.append(Case("pqnr_completes", a, True))
+                        cases.append(Case("pqnr_f1_state", a, True))
                         cases.append(Case("pqnr_result", a, True))
                     else:
                         cases.append(Case("cp_apr", a, True))
@@ -222,6 +223,29 @@ def gen_cases(rng, tier):
                           "kappatol": rng.choice([1e-10, 1e-3])},
                  "order": rng.choice(["sorted", "random"]), "sseed": rng.randrange(10 ** 6)}
             cases.append(Case("mu_model", a, True))
+    cases += _gen_w4(rng, big)
+    return cases
+
+
+def _gen_w4(rng, big):
+    """wave 4: get_search_dir_pqnr called directly (L-BFGS two-loop direction of the PQNR row sub-problem) on small dyadic inputs:
+    rank 1-3, memory 1/2/3/5, any slot position, 0-4 earlier iterations, empty / orthogonal / negative-curvature slots, variables at
+    zero with positive gradient (fixed), Bertsekas tolerance small and large"""
+    cases = []
+    for rep in range(120 if big else 40):
+        R = rng.choice([1, 1, 2, 3])
+        size = rng.choice([1, 2, 3, 3, 5])
+        m = [rng.choice([0, 0, 1, 2, 3, 5, 8]) / rng.choice([1, 4, 16]) for _ in range(R)]
+        g = [rng.choice([-6, -3, -1, 0, 1, 2, 5]) / rng.choice([1, 4, 8]) for _ in range(R)]
+        used = rng.randint(0, size)
+        delm = [[(rng.randint(-4, 4) / 4 if k < used else 0.0) for _ in range(R)] for k in range(size)]
+        delg = [[(rng.randint(-4, 4) / 4 if k < used else 0.0) for _ in range(R)] for k in range(size)]
+        rho = []
+        for k in range(size):
+            dt = sum(x * y for x, y in zip(delm[k], delg[k]))
+            rho.append((1 / dt) if dt != 0 else (0.0 if rng.random() < 0.7 else 0.5))
+        cases.append(Case("lbfgs_dir", {"m": m, "g": g, "eps": rng.choice([2.0 ** -27, 1e-8, 0.125, 0.5]), "delm": delm, "delg": delg,
+                                         "rho": rho, "pos": rng.choice([0, 0, 0, rng.randrange(size)]), "iters": rng.randint(0, 4)}, True))
     return cases
 
 
@@ -247,6 +271,7 @@ def _gen_w3(rng, big):
              "order": rng.choice(["sorted", "reversed", "random"]), "sseed": rng.randrange(10 ** 6)}
         if alg == "pqnr":
             cases.append(Case("pqnr_completes", a, any(data)))
+            cases.append(Case("pqnr_f1_state", a, any(data)))
             cases.append(Case("pqnr_result", a, any(data)))
         else:
             cases.append(Case("cp_apr", a, any(data)))
@@ -381,7 +406,13 @@ def _mk_guess(ttb, np, a):
     return init
 
 
-def _run(ttb, np, a, maxiters, sparse=None, init=None):
+def _run(ttb, np, a, maxiters, sparse=None, init=None, trace=None):
+    """trace = a c11_trace.Trace: the row sub-problem helpers of pyttb.cp_apr are wrapped for the duration of the call"""
+    if trace is not None:
+        import importlib
+        from props import c11_trace
+        with c11_trace.recording(np, importlib.import_module("pyttb.cp_apr"), trace):
+            return _run(ttb, np, a, maxiters, sparse, init)
     X = _mk_data(ttb, np, a, a["sparse"] if sparse is None else sparse)
     if init is None:
         init = _mk_guess(ttb, np, a)
@@ -429,10 +460,66 @@ def _obs_result(np, a, M, out, guess=None):
             "pure": out["pure"]}
 
 
+def _ex(l):
+    return [tgen.exact(x) for x in l]
+
+
+def _obs_trace(np, a, tr):
+    """tables for Model/C11Replay.v from a recorded run (JSON-able: keys as lists, values exact)"""
+    from props import c11_trace
+    gtab, stab = c11_trace.tables(np, tr, a["alg"])
+    return {"gtab": [[list(k), _ex(v)] for k, v in gtab.items()],
+            "stab": [[list(k), bool(fb), _ex(d), tgen.exact(al), _ex(phi)] for k, (fb, d, al, phi) in stab.items()],
+            "bad": list(tr.bad), "nev": len(tr.ev)}
+
+
+def _obs_f1_rows(np, tr):
+    """per PQNR row, in the order solved: [m_rowOLD, gradOLD, [(m_row, gradM) the KKT test of inner iteration 0, 1, ... saw]] and whether
+    float and exact arithmetic agree on 'delm . delg == 0' at every iteration (they differ only by underflow / exact cancellation)"""
+    rows, order = {}, []
+    for e in tr.ev:
+        if e[0] == "g":
+            r = e[1][:3]
+            if r not in rows:
+                rows[r] = []
+                order.append(r)
+            rows[r].append((e[2], e[3]))
+    out, agree = [], True
+    for r in order:
+        seq = rows[r]
+        for (m0, g0), (m1, g1) in zip(seq, seq[1:]):
+            fl = bool(np.any((np.array(m1) - np.array(m0)).dot((np.array(g1) - np.array(g0)).transpose()) == 0))
+            exq = sum(((Fraction(x) - Fraction(y)) * (Fraction(u) - Fraction(v)) for x, y, u, v in zip(m1, m0, g1, g0)), Fraction(0)) == 0
+            agree = agree and (fl == exq)
+        out.append([_ex(seq[0][0]), _ex(seq[0][1]), [[_ex(m), _ex(g)] for m, g in seq[1:]]])
+    return out, agree
+
+
 def run_impl(c):
     import numpy as np
     import pyttb as ttb
     a = c.args
+    if c.op == "lbfgs_dir":
+        import importlib
+        apr = importlib.import_module("pyttb.cp_apr")
+        try:
+            args = [np.array(a["m"], dtype=float), np.array(a["g"], dtype=float), float(a["eps"]),
+                    np.array(a["delm"], dtype=float).T.copy(), np.array(a["delg"], dtype=float).T.copy(), np.array(a["rho"], dtype=float)]
+            snap = [np.array(x, copy=True) for x in args]
+            d = apr.get_search_dir_pqnr(*args, int(a["pos"]), int(a["iters"]), False)
+            return {"dir": _ex(np.asarray(d).ravel()), "pure": all(np.array_equal(x, y) for x, y in zip(args, snap))}
+        except Exception as ex:
+            return {"exc": type(ex).__name__, "msg": str(ex)[:200]}
+    if c.op == "pqnr_f1_state":
+        from props import c11_trace
+        tr = c11_trace.Trace()
+        o = {}
+        try:
+            _run(ttb, np, a, a["maxiters"], trace=tr)
+        except Exception as ex:
+            o = {"exc": type(ex).__name__, "msg": str(ex)[:200]}
+        o["rows"], o["agree"] = _obs_f1_rows(np, tr)
+        return o
     if c.op == "phi_sp":
         import random
         import importlib
@@ -505,12 +592,20 @@ def run_impl(c):
         return {"runs": runs}
     try:
         kkts, res = [], None
+        tr = None
         for mi in (1, 2, 3):
-            M, out = _run(ttb, np, a, mi)
+            if mi == a["maxiters"] and a["alg"] in ("pdnr", "pqnr") and c.op in ("cp_apr", "pqnr_result"):
+                from props import c11_trace
+                tr = c11_trace.Trace()
+                M, out = _run(ttb, np, a, mi, trace=tr)
+            else:
+                M, out = _run(ttb, np, a, mi)
             kkts.append([tgen.exact(x) for x in np.asarray(out["kktViolations"]).ravel()])
             if mi == a["maxiters"]:
                 res = _obs_result(np, a, M, out)
         res["kkts"] = kkts
+        if tr is not None:
+            res["trace"] = _obs_trace(np, a, tr)
         return res
     except Exception as ex:
         return {"exc": type(ex).__name__, "msg": str(ex)[:200]}
@@ -554,7 +649,62 @@ def _ll_sp_harness(o, subs, vals):
 
 
 def _known_f1(o):
-    return o.get("exc") == "AssertionError" and "L-BFGS" in o.get("msg", "")
+    return o.get("exc") == "AssertionError" and "L-BFGS first iterate is bad" in o.get("msg", "")
+
+
+_F1_OPEN = None
+
+
+def _f1_open():
+    """C11-F1 still open in findings.d/C11.jsonl?  (open: the assertion is the known behaviour exactly where the L-BFGS bookkeeping
+    model predicts it; fixed: a pqnr run never raises)"""
+    global _F1_OPEN
+    if _F1_OPEN is None:
+        import json
+        import os
+        _F1_OPEN = False
+        with open(os.path.join(os.path.dirname(os.path.abspath(__file__)), "..", "..", "findings.d", "C11.jsonl")) as fh:
+            for ln in fh:
+                if ln.strip():
+                    k = json.loads(ln)
+                    if k.get("finding_id") == "C11-F1":
+                        _F1_OPEN = k.get("status", "open") == "open"
+    return _F1_OPEN
+
+
+def _gkey(k):
+    return "(" + ", ".join(str(int(x)) for x in k) + ")%nat"
+
+
+def _e_replay(a, o, dbg=False):
+    """Model/C11Replay.v: cp_apr_rows in Qc with the recorded gradients / line-search answers as oracles, against the returned model,
+    kktViolations and nInnerIters"""
+    t = o["trace"]
+    if t["bad"]:
+        return " && false"
+    if not all(_finite(x) for _, v in t["gtab"] for x in v) or not all(_finite(x) for e in t["stab"] for x in e[2] + [e[3]] + e[4]):
+        return " && false"
+    gw, gf = _guess_floats(a)
+    G = f"(mkK {gqlist([Fraction(x) for x in gw])} [" + "; ".join(gqmat([[Fraction(x) for x in row] for row in U]) for U in gf) + "])"
+    gtab = "[" + "; ".join(f"({_gkey(k)}, {gqlist(v)})" for k, v in t["gtab"]) + "]" if t["gtab"] else "(@nil (key * list Qc))"
+    stab = ("[" + "; ".join(f"({_gkey(k)}, mkSE {gbool(fb)} {gqlist(d)} {gq(al)} {gqlist(phi)})" for k, fb, d, al, phi in t["stab"]) + "]"
+            if t["stab"] else "(@nil (key * stepent))")
+    op = a["opts"]
+    pd = a["alg"] == "pdnr"
+    sec = (f"{gq(Fraction(1e-4))} {gq(Fraction(1e-8))} {op.get('maxinneriters', 10)} "
+           f"{gbool(pd and op.get('inexact', True))} {gbool(not pd)} {gtab} {stab}")
+    run = f"{tgen.gqdense(a['shape'], a['data'])} {G} {a['maxiters']}"
+    if dbg:
+        return sec, run
+    return f" && rows_replay_ok {sec} tol9 {run} {_gk(o)} {gqlist(o['kkt'])} {gnlist([int(x) for x in o['inner']])}"
+
+
+def _g_f1rows(rows):
+    if not rows:
+        return "(@nil (list Qc * list Qc * list (list Qc * list Qc)))"
+    return "[" + "; ".join(
+        f"({gqlist(m0)}, {gqlist(g0)}, " + ("[" + "; ".join(f"({gqlist(m)}, {gqlist(g)})" for m, g in seq) + "]" if seq
+                                              else "(@nil (list Qc * list Qc))") + ")" for m0, g0, seq in rows) + "]"
 
 
 def _e_objective(o, vs_guess=True):
@@ -621,7 +771,27 @@ def coq_check(c, o):
             parts.append("(" + _e_model(a, r) + _e_objective(r) + ")")
         return " && ".join(parts) if parts else None
     if c.op == "pqnr_completes":
-        return "false" if "exc" in o else "true"
+        if "exc" not in o:
+            return "true"
+        if _f1_open():          # only the exact assertion is the known behaviour; any other exception of the same request is
+            return "false" if _known_f1(o) else "true"      # reported, unattributed, by op pqnr_result
+        return "false"
+    if c.op == "lbfgs_dir":
+        if "exc" in o or not all(_finite(x) for x in o["dir"]):
+            return "false"
+        fr = lambda l: gqlist([Fraction(x) for x in l])
+        mat = lambda M: "[" + "; ".join(fr(col) for col in M) + "]"
+        return (f"search_dir_ok tol9 {gq(Fraction(a['eps']))} {fr(a['m'])} {fr(a['g'])} {mat(a['delm'])} {mat(a['delg'])} {fr(a['rho'])} "
+                f"{a['pos']} {a['iters']} {gqlist(o['dir'])} && {gbool(o['pure'])}")
+    if c.op == "pqnr_f1_state":
+        raised = _known_f1(o)
+        if ("exc" in o and not raised) or not o["agree"]:
+            return None             # other exception: reported by pqnr_result; float/exact disagreement on 'delm.delg == 0'
+        if not all(_finite(x) for m0, g0, seq in o["rows"] for v in [m0, g0] + [y for pr in seq for y in pr] for x in v):
+            return "false"
+        if not _f1_open():
+            return gbool(not raised)
+        return f"pqnr_f1_ok {a['opts'].get('lbfgsMem', 3)} {gq(Fraction(1e-4))} {_g_f1rows(o['rows'])} {gbool(raised)}"
     if "exc" in o:
         return None if (a["alg"] == "pqnr" and c.op in ("pqnr_result", "sp_degenerate") and _known_f1(o)) else "false"
     flat = list(o["weights"]) + [x for U in o["factors"] for row in U for x in row]
@@ -643,6 +813,8 @@ def coq_check(c, o):
     e += (f" && kkt_ok {k1} 1 && kkt_ok {k2} 2 && kkt_ok {k3} 3 && is_prefix tol9 {k1} {k2} && is_prefix tol9 {k2} {k3}"
           f" && Nat.eqb {o['nkkt']} (length {kk}) && Nat.eqb {o['ninner']} {o['nkkt']} && Nat.eqb {o['ntimes']} {o['nkkt']}")
     e += _e_bookkeeping(a, o)
+    if "trace" in o and not (a.get("sparse") and a.get("stored") is not None):
+        e += _e_replay(a, o)
     return e
 
 
@@ -678,6 +850,14 @@ def _e_bookkeeping(a, o):
 # ---------------------------------------------------------------- brute-force oracle
 def oracle(c, o):
     a = c.args
+    if c.op == "lbfgs_dir":
+        return None                  # a helper: no property predicate of its own (the transliteration is what is compared)
+    if c.op == "pqnr_f1_state":
+        if _known_f1(o):
+            return ("admissible pqnr request raised 'L-BFGS first iterate is bad' in a solver state the bookkeeping model of finding "
+                    "C11-F1 (Model/C11Replay.v lbfgs_scan) does not predict" if _f1_open() else
+                    f"admissible request raised {o['exc']}: {o.get('msg')}")
+        return None
     if c.op == "phi_sp":
         if "exc" in o:
             return f"calculate_pi/calculate_phi raised {o['exc']}: {o.get('msg')}"
@@ -762,10 +942,17 @@ def _trig_explicit_zero(c):
 
 
 def _trig_big_kappa(c):
-    """MU with a slackness offset kappa >= 1 applied below a tolerance kappatol >= 0.5, more than one outer iteration in total"""
+    """MU with a slackness offset kappa >= 1 applied below a tolerance kappatol >= 0.5, AND an independent pure-Python evaluation of
+    the documented algorithm on this request (props/c11_mu.py: no numpy, no pyttb) says that in some call the repair fired and that
+    call ended less likely than its starting guess — the request class on which C11-F4 manifests, decided from the request alone"""
     a = c.args
-    return (c.op in ("cp_apr", "rerun") and a.get("alg") == "mu" and a["opts"].get("kappa", 0.01) >= 1.0
-            and a["opts"].get("kappatol", 1e-10) >= 0.5 and (c.op == "rerun" or a["maxiters"] >= 2))
+    if not (c.op in ("cp_apr", "rerun") and a.get("alg") == "mu" and a["opts"].get("kappa", 0.01) >= 1.0
+            and a["opts"].get("kappatol", 1e-10) >= 0.5):
+        return False
+    from props import c11_mu
+    gw, gf = _guess_floats(a)
+    runs = [a["maxiters"], a["maxiters2"]] if c.op == "rerun" else [a["maxiters"]]
+    return c11_mu.less_likely_after_repair(a["shape"], a["data"], gw, gf, runs, a["opts"])
 
 
 TRIGGERS = {"pqnr_any_input": lambda c: c.op == "pqnr_completes", "sparse_no_entry": _trig_no_entry,
